@@ -248,7 +248,7 @@ func Tan(d Number) Number {
 // Special cases are:
 //
 //	Asin(±0) = (±0+Nϵ₁+Nϵ₂±0ϵ₁ϵ₂)
-//	Asin(±1) = (±Inf+Infϵ₁+Infϵ₂±Infϵ₁ϵ₂)
+//	Asin(±1) = (±Pi/2+Infϵ₁+Infϵ₂±Infϵ₁ϵ₂)
 //	Asin(x) = NaN if x < -1 or x > 1
 func Asin(d Number) Number {
 	if d.Real == 0 && d.E1E2mag == 0 {
